@@ -98,7 +98,8 @@ def on_curve(curve, verts, res, tol, what):
     """Every vertex within tol of the curve at strictly increasing parameters,
     the last one at f=1.  Returns the list of parameters."""
     speed = max(curve.max_speed(), 1e-12)
-    n = int(min(400000, max(2000, 40 * speed / res)))
+    turns = abs(curve.S) / (2 * math.pi)
+    n = int(min(1000000, max(2000, 40 * speed / res, 1000 * turns)))
     f, pts = curve.table(n)
     seg = np.linalg.norm(np.diff(pts, axis=0), axis=1)
     cum = np.concatenate(([0.0], np.cumsum(seg)))
@@ -111,7 +112,19 @@ def on_curve(curve, verts, res, tol, what):
         j_hi = min(max(j_hi, j_prev + 2), n)
         w = pts[j_prev:j_hi + 1] - np.array(v)
         d = np.einsum("ij,ij->i", w, w)
-        j = j_prev + int(np.argmin(d))
+        # a curve may pass through the same place more than once (several
+        # turns at constant radius and height): take the EARLIEST stretch of
+        # the window that comes within tolerance, not the global minimum
+        spacing = float(seg[j_prev:j_hi].max()) if j_hi > j_prev else 0.0
+        close = np.nonzero(d <= (tol + spacing) ** 2)[0]
+        if close.size:
+            k0 = int(close[0])
+            k1 = k0
+            while k1 + 1 < d.size and d[k1 + 1] <= d[k1]:
+                k1 += 1
+            j = j_prev + k1
+        else:
+            j = j_prev + int(np.argmin(d))
         lo = f[max(j - 1, 0)]
         hi = f[min(j + 1, n)]
         lo = max(lo, f_prev)
